@@ -258,13 +258,20 @@ Fixpoint drop_while (f : Z -> bool) (s : str) : str :=
 Definition trim (s : str) : str := rev (drop_while is_trim (rev (drop_while is_trim s))).
 
 (* ---------- 15.5.4.16 / .18 : simple case mapping on the covered ranges ---------- *)
-(* covered: ASCII, Latin-1, Greek U+0391..U+03C9 basic letters, Cyrillic U+0400..U+045F.
+(* covered: ASCII, Latin-1, Latin Extended-A U+0100..U+012F, the digraph triples U+01C4..U+01CC and
+   U+01F1..U+01F3 (upper / title / lower), Greek U+0391..U+03C9 basic letters, Cyrillic U+0400..U+045F.
    Characters whose ES5 mapping needs SpecialCasing (sharp s, final sigma, ...) or
    that are outside these ranges make the function decline. *)
+Definition digraph_base (c : Z) : option Z :=   (* the upper-case member of the triple c belongs to *)
+  if (0x1C4 <=? c) && (c <=? 0x1CC) then Some (0x1C4 + (c - 0x1C4) / 3 * 3)
+  else if (0x1F1 <=? c) && (c <=? 0x1F3) then Some 0x1F1 else None.
 Definition lower1 (c : Z) : option Z :=
   if c <? 0x80 then Some (if (65 <=? c) && (c <=? 90) then c + 32 else c)
   else if c <? 0x100 then
     Some (if (0xC0 <=? c) && (c <=? 0xDE) && negb (c =? 0xD7) then c + 32 else c)
+  else if c <? 0x130 then Some (if Z.even c then c + 1 else c)
+  else if (match digraph_base c with Some _ => true | None => false end) then
+    option_map (fun b => b + 2) (digraph_base c)
   else if (0x391 <=? c) && (c <=? 0x3A9) then
     (if (c =? 0x3A3) || (c =? 0x3A2) then None else Some (c + 32))
   else if (0x3B1 <=? c) && (c <=? 0x3C9) then Some c
@@ -279,6 +286,8 @@ Definition upper1 (c : Z) : option Z :=
      else if c =? 0xB5 then Some 0x39C
      else if c =? 0xFF then Some 0x178
      else Some (if (0xE0 <=? c) && (c <=? 0xFE) && negb (c =? 0xF7) then c - 32 else c))
+  else if c <? 0x130 then Some (if Z.even c then c else c - 1)
+  else if (match digraph_base c with Some _ => true | None => false end) then digraph_base c
   else if (0x391 <=? c) && (c <=? 0x3A9) then (if c =? 0x3A2 then None else Some c)
   else if (0x3B1 <=? c) && (c <=? 0x3C9) then Some (if c =? 0x3C2 then 0x3A3 else c - 32)
   else if (0x400 <=? c) && (c <=? 0x42F) then Some c
